@@ -138,17 +138,18 @@ def check_wrapped(path, shape, sites, tag):
     return viols
 
 
-def eval_grid(F, diagonal, res: Result, methods=METHODS, pairs=None):
+def eval_grid(F, diagonal, res: Result, methods=METHODS, pairs=None, fev=None):
     import networkx as nx
 
     from gemdat.path import optimal_path
 
     F = np.asarray(F, dtype=float)
     shape = F.shape
-    case0 = {'F': F.tolist(), 'diagonal': diagonal}
+    case0 = {'F': F.tolist(), 'diagonal': diagonal, 'same_object_before': fev is not None}
     offs = pathref.offsets(diagonal)
     E = pathref.admissible(F, THR)
-    fev = fev_of(F)
+    if fev is None:
+        fev = fev_of(F)
     try:
         G = fev.free_energy_graph(max_energy_threshold=THR, diagonal=diagonal)
     except Exception as e:  # noqa: BLE001
@@ -185,7 +186,7 @@ def eval_grid(F, diagonal, res: Result, methods=METHODS, pairs=None):
         own[s]['bottleneck'] = pathref.bottleneck(E, shape, offs, s)
     for (s, t) in pairs:
         for method in methods:
-            case = {'F': F.tolist(), 'diagonal': diagonal, 'start': list(s), 'stop': list(t), 'method': method}
+            case = {'F': F.tolist(), 'diagonal': diagonal, 'start': list(s), 'stop': list(t), 'method': method, 'same_object_before': case0['same_object_before']}
             res.evals += 1
             reach = t in own[s]['sum']
             try:
@@ -311,12 +312,13 @@ def run_shard(shard) -> Result:
         n = int(np.prod(shape))
         alpha = shard['alpha']
         pre = [alpha[i] for i in shard['prefix']]
-        for rest in itertools.product(alpha, repeat=n - len(pre)):
+        for gi, rest in enumerate(itertools.product(alpha, repeat=n - len(pre))):
             F = np.array(pre + list(rest)).reshape(shape)
             if not np.any(F < THR):
                 continue
-            for diagonal in (True, False):
-                eval_grid(F, diagonal, res)
+            fev = fev_of(F)  # ONE volume object serves both neighbourhood modes (order alternates)
+            for diagonal in ((True, False) if gi % 2 == 0 else (False, True)):
+                eval_grid(F, diagonal, res, fev=fev)
         res.sample({'grid_shape': shape, 'energies': F.tolist(), 'pairs': 'all admissible ordered pairs', 'methods': METHODS})
     elif kind == 'family':
         for F in family_grids(shard):
@@ -327,8 +329,9 @@ def run_shard(shard) -> Result:
                 pairs = [(s, t) for s in srcs for t in nodes]
             else:
                 pairs = None
+            fev = fev_of(F)
             for diagonal in (True, False):
-                eval_grid(F, diagonal, res, pairs=pairs)
+                eval_grid(F, diagonal, res, pairs=pairs, fev=fev)
         res.sample({'family': shard['fam'], 'grid_shape': shard['shape']})
     elif kind == 'perc':
         shape = tuple(shard['shape'])
@@ -364,8 +367,17 @@ def replay(case):
     res = Result()
     if 'dirs' in case:
         eval_percolation(np.array(case['F']), case['dirs'], [tuple(p) for p in case['peaks']], res)
-    elif 'start' in case:
-        eval_grid(np.array(case['F']), case['diagonal'], res, methods=[case['method']], pairs=[(tuple(case['start']), tuple(case['stop']))])
     else:
-        eval_grid(np.array(case['F']), case['diagonal'], res)
+        F = np.array(case['F'])
+        fev = fev_of(F)
+        if case.get('same_object_before', True):
+            try:  # the other neighbourhood mode was asked of the same object first
+                fev.free_energy_graph(max_energy_threshold=THR, diagonal=not case['diagonal'])
+                fev.optimal_path(start=sorted(pathref.admissible(F, THR))[0], stop=sorted(pathref.admissible(F, THR))[0])
+            except Exception:  # noqa: BLE001
+                pass
+        if 'start' in case:
+            eval_grid(F, case['diagonal'], res, methods=[case['method']], pairs=[(tuple(case['start']), tuple(case['stop']))], fev=fev)
+        else:
+            eval_grid(F, case['diagonal'], res, fev=fev)
     return [{'kind': v['kind'], 'detail': v['detail']} for v in res.viols]
